@@ -134,6 +134,21 @@ def make_cases(ctx, tzrows):
                         st["PREFER_DATES_FROM"] = rng.choice(["past", "future"])
                     cases.append({"kind": "c01", "fam": fam, "dt": dt, "ht": ht, "hs": hs, "fl": flw, "s": s_,
                                   "kw": {"languages": ["en"]} if rng.random() < 0.7 else {}, "settings": st, "api": "ddp", "probe": True})
+    # ---- complete dates ON the reference date (and on today's date when no reference is given), times before and after
+    # the reference, every PREFER_DATES_FROM: a complete date is never moved by the preferences
+    today = datetime.datetime.utcnow()
+    for base, explicit in (([2021, 6, 15, 12, 0, 0, 0], True), ([today.year, today.month, today.day, 12, 0, 0, 0], False),
+                           ([2024, 2, 29, 0, 0, 0, 0], True), ([1999, 12, 31, 23, 59, 59, 0], True)):
+        for hh, mi_, ss in ((0, 0, 0), (6, 30, 15), (11, 59, 59), (12, 0, 0), (12, 0, 1), (18, 30, 45), (23, 59, 59)):
+            dt = [base[0], base[1], base[2], hh, mi_, ss, 0]
+            for fam in (rng.sample(range(1, 15), 5) if ctx.quick() else range(1, 15)):
+                for pdf in ("past", "future", "current_period"):
+                    s_, ht, hs, flw = render(fam, dt, 0, rng)
+                    st = {"PREFER_DATES_FROM": pdf}
+                    if explicit:
+                        st["RELATIVE_BASE"] = list(base)
+                    cases.append({"kind": "c01", "fam": fam, "dt": dt, "ht": ht, "hs": hs, "fl": flw, "s": s_,
+                                  "kw": {"languages": ["en"]} if rng.random() < 0.7 else {}, "settings": st, "api": "ddp", "probe": True})
     # ---- epoch numbers
     zones = ["UTC", "Asia/Kolkata", "America/New_York", "Europe/Berlin", "Australia/Lord_Howe", "Pacific/Apia",
              "Asia/Kathmandu", "America/St_Johns", "Pacific/Kiritimati", "Africa/Nairobi"]
